@@ -431,7 +431,7 @@ def harness_stream(ctx, thorough, replay_case=None):
         for bits in gp.F32_SPECIAL + gp.F32_NONFINITE:
             cases.append(('val', 'f32', PRIMS['f32'], ('e', bits), None))
         # random values / JSON inputs of primitive types under the shapes, and of the fixed derived types
-        n_rand = 60000 if thorough else 6000
+        n_rand = 400000 if thorough else 8000
         names = list(PRIMS) + list(FIXED) * 3
         for _ in range(n_rand):
             base = rng.choice(names)
@@ -669,28 +669,35 @@ def generated_crate(ctx, index, sizes, slot=0, only=None):
         else:
             ctx.count('mutant:accepted and equal')
     # ---- rejected mutants: each must be a compile error at its own line ----
+    # rustc stops after macro expansion when an invocation matches no arm, so errors of the later phases (a key without
+    # .to_string(), an unknown identifier) are only reported once no expansion error is left: cases that did produce an error
+    # are set aside and the rest is compiled again.
     if not only:
         for group, label in ((noarm, 'noarm'), (keyerr, 'key')):
-            if not group:
-                continue
-            rsrc, where = gp.reject_crate_source(group)
-            rb = build_crate(slot, 'c14_prog', rsrc, toml, check_only=True)
-            errs = {}
-            for line, msg in error_lines(rb['out']):
-                errs.setdefault(line, msg)
+            pending = list(group)
             ctx.evaluations += len(group)
-            for line, x in where.items():
-                if line in errs:
+            rounds = 0
+            while pending and rounds < 4:
+                rounds += 1
+                rsrc, where = gp.reject_crate_source(pending)
+                rb = build_crate(slot, 'c14_prog', rsrc, toml, check_only=True)
+                errs = {}
+                for line, msg in error_lines(rb['out']):
+                    errs.setdefault(line, msg)
+                hit = [x for line, x in where.items() if line in errs]
+                for x in hit:
                     ctx.count('mutant:rejected by model and compiler (%s)' % label)
+                rest = [x for line, x in where.items() if line not in errs]
+                if not hit or not rest:
+                    for x in rest:
+                        report(ctx, {'kind': 'mutant', 'crate': index, 'case': x['k'], 'rust': 'json!(%s)' % x['rust'][:1500],
+                                     'tokens': x['tokens'][:1500]},
+                               'compiles' if rb['ok'] else 'no error attributed: ' + rendered_errors(rb['out'], 300), 'model: ' + x['model'],
+                               cls='macro-superset', failing_input=False,
+                               what='outside the JSON grammar: the model says compile error (%s), rustc reports none at that invocation' % label)
+                    pending = []
                 else:
-                    report(ctx, {'kind': 'mutant', 'crate': index, 'case': x['k'], 'rust': 'json!(%s)' % x['rust'][:1500],
-                                 'tokens': x['tokens'][:1500]},
-                           'compiles' if rb['ok'] or errs else 'no error attributed: ' + rendered_errors(rb['out'], 300), 'model: ' + x['model'],
-                           cls='macro-superset', failing_input=False,
-                           what='outside the JSON grammar: the model says compile error (%s), rustc reports none at that invocation' % label)
-            stray = [l for l in errs if l not in where]
-            if stray and len(stray) > 2:
-                ctx.notes.append('reject crate (%s): %d error lines outside the json! invocations, e.g. %s' % (label, len(stray), errs[stray[0]][:120]))
+                    pending = rest
     if not only and index == 0:
         d0 = c.decls[0]
         ctx.sample({'stream': 'program', 'type': gp.decl_source(d0, gp.random.Random(0)).split('impl Dump')[0][:400]})
